@@ -79,6 +79,16 @@ fn gen(rng: &mut Rng, tier: Tier) -> Vec<Case> {
     let mut out = vec![];
     let (nb, nr) = match tier { Tier::Quick => (1200, 200), Tier::Thorough => (20000, 4000) };
     if tier == Tier::Thorough {
+        // LARGE groups: more than 2^16 book-ended or overlapping records in ONE group (a cap on the size of a group, a 16-bit
+        // counter); the driver compares with the model's linear grouping, which the spec determines uniquely
+        for (k, n) in [(0u64, 70_000u64), (1, 66_000), (2, 9_000)] {
+            let xs: Vec<Rec> = (0..n).map(|i| match k {
+                0 => Rec::new("chr1", 10 * i, 10 * i + 10),
+                1 => Rec::new("chr1", 10 * i, 10 * i + 9 + if i % 3 == 0 { 4 } else { 1 }),
+                _ => Rec::new(if i < 4500 { "chr1" } else { "chr2" }, 7 * (i % 4500), 7 * (i % 4500) + if i % 500 == 499 { 3 } else { 9 }),
+            }).collect();
+            out.push(Case::new("large", enc(&xs)));
+        }
         // exhaustive small scope: every sorted sequence of <= 4 records over 2 chromosomes, coordinates 0..=3 (zero-length included)
         let mut univ: Vec<Rec> = vec![];
         for ch in ["c", "cc"] { for s in 0..=3u64 { for e in s..=3u64 { univ.push(Rec::new(ch, s, e)); } } }
